@@ -1,4 +1,5 @@
 """C08 - accepted workflows are type-sound: every value matches its declared schema."""
+import json
 import random
 
 from .. import gen, harness, mon, ref, runfam
@@ -243,6 +244,24 @@ def run(check):
             prog = Program([st], {"report": {"m": Expr(ref_)}}, gen.BASE_INPUT)
             scripts = gen.make_scripts([st], {name: kind} if kind in ("crash", "deployfail") else {})
             extra.append({"program": prog, "scripts": scripts, "input": {"tag": "T1", "flag": True}, "shape": "engine-text/%s/id-length-%d" % (kind, ln), "outcome": {}, "pair": None, "drift": True, "expect_out": "report"})
+    # a plugin whose success output has a property of the type `pattern`: what enters the data model, reaches other steps and the
+    # workflow output is its text
+    for j, where in enumerate(["output", "output-whole", "step-input", "loop-item"]):
+        a = gen.plugin_step("a", Expr(In("tag")), schema="patterned")
+        steps = [a]
+        if where == "output":
+            outs = {"report": {"p": Expr(Ref("a", "outputs", "success", "pat")), "t": gen.tagref("a")}}
+        elif where == "output-whole":
+            outs = {"report": {"all": Expr(Ref("a", "outputs", "success"))}}
+        elif where == "step-input":
+            steps.append(gen.plugin_step("b", Expr(Ref("a", "outputs", "success", "pat")), extra_input={"a": Expr(Ref("a", "outputs", "success"))}))
+            outs = {"report": {"b": gen.tagref("b")}}
+        else:
+            steps.append(Step("loop", "foreach", sub=gen.sub_program("sub.yaml", 1), items=[{"tag": Expr(Ref("a", "outputs", "success", "pat"))}]))
+            outs = {"report": {"d": Expr(Ref("loop", "outputs", "success", "data"))}}
+        scripts = gen.make_scripts(steps, {})
+        extra.append({"program": Program(steps, outs, gen.BASE_INPUT), "scripts": scripts, "input": {"tag": "T1"}, "shape": "pattern-typed-plugin-output/%s" % where, "outcome": {}, "pair": None, "drift": True,
+                      "expect_out": "report", "expect_text": "^a+[0-9]{2}$"})
     # constants for `enabled` in every spelling the declared bool type accepts, on loop and plugin steps: what preparation and the
     # run loop's check of the stage input accept, the provider must understand
     for kind in ("loop", "plugin"):
@@ -327,6 +346,8 @@ def run(check):
                              {"case": case, "result": runfam.strip(res)})
             if g.get("expect_out_if_accepted") and run.get("out_id") != g["expect_out_if_accepted"] and "bug:" not in err.lower():
                 check.report("result@" + g["shape"].split("/")[0], "case %s (%s): accepted, expected output %r, got %r / %s" % (cid, g["shape"], g["expect_out_if_accepted"], run.get("out_id"), err[:300]), {"case": case, "result": runfam.strip(res)})
+            if g.get("expect_text") and run.get("out_id") == g.get("expect_out") and g["expect_text"] not in json.dumps(ref.denum(run.get("data"))):
+                check.report("value@" + g["shape"].split("/")[0], "case %s (%s): the returned data does not carry the text %r: %r" % (cid, g["shape"], g["expect_text"], run.get("data")), {"case": case})
             if g.get("expect_out") and run.get("out_id") != g["expect_out"] and "bug:" not in err.lower():
                 check.report("result@" + g["shape"].split("/")[0], "case %s (%s): expected output %r, got %r / %s" % (cid, g["shape"], g["expect_out"], run.get("out_id"), err[:300]), {"case": case, "result": runfam.strip(res)})
             check.nontrivial(g["shape"])
